@@ -45,7 +45,20 @@ def PyTy.eqF : Nat → PyTy → PyTy → Bool
     | .unknown a, .unknown b => a == b
     | _, _ => false
 
-def PyTy.eqb (a b : PyTy) : Bool := PyTy.eqF 16 a b
+/-- top level without fuel recursion (most comparisons fail on the constructor or the name; the
+    kernel evaluates thousands of these per obligation) -/
+def PyTy.eqb (a b : PyTy) : Bool :=
+  match a, b with
+  | .int, .int | .float, .float | .str, .str | .bool, .bool | .none, .none | .any, .any | .obj, .obj => true
+  | .cls a, .cls b => a == b
+  | .enum a, .enum b => a == b
+  | .seq a, .seq b => PyTy.eqF 16 a b
+  | .dict a b, .dict c d => PyTy.eqF 16 a c && PyTy.eqF 16 b d
+  | .tuple a, .tuple b => eqL (PyTy.eqF 16) a b
+  | .union a, .union b => eqL (PyTy.eqF 16) a b
+  | .literal a, .literal b => a == b
+  | .unknown a, .unknown b => a == b
+  | _, _ => false
 
 def inU (U : List PyTy) (t : PyTy) : Bool := U.any (PyTy.eqb t)
 
@@ -94,11 +107,18 @@ def isOfJsonK : List (PyVal × PyVal) → List (Name × Json) → Bool
   | _, _ => false
 end
 
-/-- The key of a field carries the JSON form of its default although the field is omitted when it
-    holds the default: such a key would be lost on the way back, so it is not part of a faithful reading. -/
+/-- An explicit `null` under an optional property whose type does not admit null is not a valid
+    value (the metamodel reading; the converter would read it as unset).  Where the type admits null
+    only through `LSPAny` (`data?: LSPAny`), an explicit `null` is valid and reads as unset.  A string
+    equal to the literal default of an omitted-when-default field does not occur in the package. -/
+def PyTy.anyNull : PyTy → Bool
+  | .any => true
+  | .union ts => ts.any (fun t => match t with | .any => true | _ => false)
+  | _ => false
+
 def Field.faithfulJ (f : Field) (x : Json) : Bool :=
   match f.dflt with
-  | .none => !(f.omitU && x.isNull)
+  | .none => !(f.omitU && x.isNull && !f.ty.anyNull)
   | .str s => !(f.omitU && (match x with | .str t => t == s | _ => false))
   | _ => true
 
